@@ -6,7 +6,7 @@
 (* SingletonInstances = TRUE models the classic breakage (instances cached *)
 (* per name); TLC then finds the FreshInstances counterexample.            *)
 (***************************************************************************)
-EXTENDS OpShape, OpIndex, OpRecurrent
+EXTENDS OpShape, OpIndex, OpRecurrent, OpLinear
 CONSTANTS SingletonInstances, MaxSteps
 VARIABLES insts,     \* sequence of [name, obj, attrs]: one entry per lookup; obj = identity of the operator object
           objs,      \* obj id -> attribute state (what Init wrote last)
@@ -19,7 +19,9 @@ Templates ==
     [name |-> "Transpose", attrs |-> <<AIs("perm", <<1, 0, 2>>)>>], [name |-> "Transpose", attrs |-> <<AIs("perm", <<2, 1, 0>>)>>],
     [name |-> "Gather",    attrs |-> <<AI("axis", 1)>>], [name |-> "Gather", attrs |-> <<>>],
     \* a list-valued attribute with a default: explicit activations on one instance, the defaults (sigmoid, tanh) on another
-    [name |-> "GRU", attrs |-> <<AI("hidden_size", 1), ASs("activations", <<"relu", "relu">>)>>], [name |-> "GRU", attrs |-> <<AI("hidden_size", 1)>>]}
+    [name |-> "GRU", attrs |-> <<AI("hidden_size", 1), ASs("activations", <<"relu", "relu">>)>>], [name |-> "GRU", attrs |-> <<AI("hidden_size", 1)>>],
+    \* scalar attributes with ONNX defaults: one node spells alpha and transB out, another relies on the defaults
+    [name |-> "Gemm", attrs |-> <<AF("alpha", Fin(2)), AI("transB", 1)>>], [name |-> "Gemm", attrs |-> <<>>]}
 Names == {t.name : t \in Templates}
 ProbeX == Iota("f32", <<2, 2, 3>>, 0)
 ProbeI == T("i64", <<1>>, <<1>>)
@@ -27,11 +29,15 @@ ProbeI == T("i64", <<1>>, <<1>>)
 GruX == T("f32", <<1, 1, 1>>, <<2048>>)
 GruW == T("f32", <<1, 3, 1>>, <<-1, 1, 1>>)
 GruR == T("f32", <<1, 3, 1>>, <<0, 0, 0>>)
-ProbeInputs(name) == IF name = "Gather" THEN <<ProbeX, ProbeI>> ELSE IF name = "GRU" THEN <<GruX, GruW, GruR>> ELSE <<ProbeX>>
+GemmA == T("f32", <<2, 2>>, <<1, 2, 3, 4>>)
+GemmB == T("f32", <<2, 2>>, <<1, -1, 2, 5>>)
+ProbeInputs(name) == IF name = "Gather" THEN <<ProbeX, ProbeI>> ELSE IF name = "GRU" THEN <<GruX, GruW, GruR>>
+                     ELSE IF name = "Gemm" THEN <<GemmA, GemmB>> ELSE <<ProbeX>>
 SemOf(name, attrs) ==
    CASE name = "Flatten"   -> SemFlatten(ProbeX, AttrV(attrs, "axis", 1))
      [] name = "Transpose" -> SemTranspose(ProbeX, attrs)
      [] name = "Gather"    -> SemGather(ProbeX, ProbeI, attrs)
+     [] name = "Gemm"      -> SemGemm(GemmA, GemmB, Nil, attrs)
      \* a GRU that was never initialised has no hidden_size: only "no crash" is required of it
      [] name = "GRU"       -> IF attrs = <<>> THEN NoCrash ELSE SemRecurrent("GRU", attrs, <<GruX, GruW, GruR>>, 2).allowed
 \* attribute state after Init(attrs) on a state old: Init only overwrites what the node carries
